@@ -385,7 +385,7 @@ def run_vrptw(case, policy, o: Outcome | None, ref: Ref, record=True):
     try:
         with seams.install_rng(RNG_MODULES, plan), seams.install_clock(clock):
             cust_arg = custs[1:]
-            veh_arg = vehs
+            veh_arg = list(vehs)  # the caller's own fleet list (edited after the call, below)
             kw_cap = {}
             if case.get("as_tuples"):  # the documented tuple form of customers, and an int fleet when capacities are uniform
                 cust_arg = []
@@ -403,11 +403,22 @@ def run_vrptw(case, policy, o: Outcome | None, ref: Ref, record=True):
             res = m.solve_vrptw(cust_arg, veh_arg, tuple(inst["depot"]), max_iter=case["max_iter"], max_no_improve=case["max_no_improve"],
                                 seed=case["seed"], on_progress=prog if case["interval"] else None,
                                 progress_interval=case["interval"], **kw_cap, **(case.get("weights") or {}))
+            aliased = None
+            if res is not None and hasattr(res.solution, "vehicles"):
+                # the caller goes on with its own lists (next scenario: smaller fleet, other customers); what was returned stays
+                before = (len(res.solution.vehicles), len(res.solution.customers), snapshot(res.solution))
+                if isinstance(veh_arg, list):
+                    del veh_arg[:]
+                if isinstance(cust_arg, list):
+                    del cust_arg[:]
+                after = (len(res.solution.vehicles), len(res.solution.customers), snapshot(res.solution))
+                if before != after:
+                    aliased = f"vehicles/customers/state before {before[:2]} after {after[:2]}"
     except SOLVER_ERRORS as e:
         exc = e
     finally:
         m.vrp_objective = real_obj
-    return {"res": res, "exc": exc, "seen": seen, "prog": prog, "clock": clock, "plan": plan, "w": w}
+    return {"res": res, "exc": exc, "seen": seen, "prog": prog, "clock": clock, "plan": plan, "w": w, "aliased": aliased if exc is None else None}
 
 
 def judge_vrptw(case, r, o: Outcome, ref: Ref, label):
@@ -415,6 +426,10 @@ def judge_vrptw(case, r, o: Outcome, ref: Ref, label):
     if r["exc"] is not None:
         o.violate(PROP, f"exception:{type(r['exc']).__name__}", f"{label}: solve_vrptw raised {type(r['exc']).__name__}: {r['exc']}",
                   target="solve_vrptw", family=fam)
+        return
+    if r.get("aliased"):
+        o.violate(PROP, "result_aliases_input", f"{label}: the returned state changed when the caller edited its own argument lists after the "
+                  f"call: {r['aliased']}", target="solve_vrptw", family=fam)
         return
     if r["seen"]["bad"]:
         k, bad = r["seen"]["bad"]
